@@ -340,6 +340,32 @@ def load_corpus():
   return out
 
 
+def translator_obligations(ctx):
+  """Regenerate the translation of sm3._moving_averages / _moving_averages_momentum from /repo and re-prove
+  it equal to C12.Ref (linked to the model by c12_source_moving_averages_is_model)."""
+  from tools import targets
+  text, errors = targets.generate_c12(common.REPO)
+  ctx.cov["obligations"] += 3
+  if errors:
+    ctx.proof_failure("translate sm3._moving_averages / _moving_averages_momentum", json.dumps(errors))
+    return
+  ok, out = ctx.gen_obligation("Gen", text)
+  if not ok:
+    ctx.proof_failure("compile gen/C12/Gen.v (translation of SM3's moving averages)", out[-2000:])
+    return
+  ctx.cov["discharged"] += 1
+  for fn in (targets.SM3_MA, targets.SM3_MOM):
+    ob = ("From Precond Require Import Base.PyLib Base.QMat Base.PyFloat.\nFrom Precond Require C12.Ref.\n"
+          "From PrecondGen Require C12.Gen.\n"
+          "Lemma gen_eq_%s : C12.Gen.%s = C12.Ref.%s.\nProof. reflexivity. Qed.\n"
+          % (fn.name, fn.name, fn.name))
+    ok, out = ctx.gen_obligation("GenEq_" + fn.name, ob)
+    if ok:
+      ctx.cov["discharged"] += 1
+    else:
+      ctx.proof_failure("GenEq_%s (Gen = Ref)" % fn.name, out[-2000:])
+
+
 def run(ctx):
   ctx.cov["rule"] = (
       "shapes: all of rank 1..2 over dims 1..4, PRNG samples of rank 3..4 (dims 1..4, unit dims "
@@ -358,6 +384,7 @@ def run(ctx):
       "cross-checked against float64"]
   ctx.cov["tolerances"] = dict(tau_f32=float(TAU), tau_update_squared=float(TAU_U2))
   ctx.proofs(PROPS, extra_targets=EXTRA)
+  translator_obligations(ctx)
   known = common.load_known_findings("C12")
   corpus = load_corpus()
   cases = gen_cases(ctx)
